@@ -16,6 +16,9 @@ type sgen struct {
 	enc   *peerEnc
 	next  uint32
 	conns int
+	// sample the gauges after every frame and handler completion (closing scenarios: the monitor wants to see,
+	// step by step, whether anything promised is still open)
+	gaugeEach bool
 }
 
 func newSgen(p *prng, w *bufio.Writer) *sgen { return &sgen{w: w, p: p, id: "s0"} }
@@ -29,11 +32,17 @@ func (g *sgen) newConn(mcs, mhl, mrb int) {
 	g.conns++
 	g.enc = newPeerEnc()
 	g.next = 1
+	g.gaugeEach = false
 	g.line("# connection %d", g.conns)
 	g.line("srv %s new mcs=%d mhl=%d mrb=%d", g.id, mcs, mhl, mrb)
 }
 
-func (g *sgen) frame(b []byte)  { g.line("srv %s frame %s", g.id, hexOrDash(b)) }
+func (g *sgen) frame(b []byte) {
+	g.line("srv %s frame %s", g.id, hexOrDash(b))
+	if g.gaugeEach {
+		g.gauges()
+	}
+}
 func (g *sgen) bytes(b []byte)  { g.line("srv %s bytes %s", g.id, hexOrDash(b)) }
 func (g *sgen) gauges()         { g.line("srv %s gauges", g.id) }
 func (g *sgen) mon()            { g.line("srv %s mon", g.id) }
@@ -63,6 +72,9 @@ func (g *sgen) done(sid uint32, r respGen) {
 	sp, _ := parseResp(sid, []string{fmt.Sprintf("st=%d", r.status), "hdr=" + kvHex(r.hdr), "body=" + r.body})
 	view := responseView(sp)
 	g.line("srv %s done %d st=%d hdr=%s view=%s body=%s", g.id, sid, r.status, kvHex(r.hdr), fmtKV(view), r.body)
+	if g.gaugeEach {
+		g.gauges()
+	}
 }
 
 func kvHex(fs []kv) string {
@@ -867,6 +879,7 @@ func genSrvGoAway(p *prng, thorough bool, w *bufio.Writer) {
 		}
 		kind := p.intn(19)
 		g.line("#connoffence %d", kind)
+		g.gaugeEach = true
 		g.connOffence(kind)
 		// trailing traffic
 		for i := 0; i < p.intn(4); i++ {
